@@ -23,8 +23,8 @@ func init() {
 			"Does not decide: frame-bit search, re-alignment arithmetic after a loss, mix scaling values, exactly-once of external triggers as a numeric fact.",
 		RuleDocs: []string{
 			"C04.R1 FRAME rule (E3) on the Lancero block assembly",
-			"C04.R2 dependence of every buffer index on the channel-to-readout table; polynomial form of the table fill",
-			"C04.R3 nil-guard of map lookups; provenance of the row count; E3 form of the recorded count; edge detection shape",
+			"C04.R2 dependence of every buffer index on the channel-to-readout table, in the block assembly and in helpers handed the buffers; the mixer object Mix[k] is applied to buffers[table[k]] and buffers[table[k-1]] (or to a channel-ordered view filled from the table); polynomial form of the table fill",
+			"C04.R3 nil-guard of map lookups; provenance of the row count; E3 form of the recorded count; the counter in it is read before any advance of the counter (store or helper call) can have happened; edge detection shape",
 			"C04.R4 E5 carried state and sibling agreement in the feedback mixer; saturation arms",
 			"C04.R5 E3 form of the demultiplexing copy and of the released byte count",
 			"C04.R6 ownership of the carried sample: the carried-sample field is stored only by the mixer's methods (or on a fresh object); the source's table of mixer objects and its elements are assigned only in functions the running data loop (getNextBlock and what it starts) cannot reach",
@@ -190,6 +190,42 @@ func c04R2R3(p *Prog, r *Report) {
 				r.Unk("C04.R2", key, p.InstrPos(in), "the mixer object is not taken from the source's table of mixers by an index")
 				return
 			}
+			// chanView: a slice made here and filled with view[i] = buffers[table[i]]: the buffers in channel order
+			chanView := func(x ssa.Value) bool {
+				mk, ok := x.(*ssa.MakeSlice)
+				if !ok {
+					return false
+				}
+				n, good := 0, true
+				for _, ref := range *mk.Referrers() {
+					ia, ok := ref.(*ssa.IndexAddr)
+					if !ok {
+						continue
+					}
+					for _, r2 := range *ia.Referrers() {
+						st, ok := r2.(*ssa.Store)
+						if !ok || st.Addr != ssa.Value(ia) {
+							continue
+						}
+						n++
+						okSt := false
+						if ld, ok := st.Val.(*ssa.UnOp); ok && ld.Op == token.MUL {
+							if b, ok := ld.X.(*ssa.IndexAddr); ok && isBuffers(b.X) {
+								if tl, ok := stripConv(b.Index).(*ssa.UnOp); ok && tl.Op == token.MUL {
+									if ta, ok := tl.X.(*ssa.IndexAddr); ok && ta.Index == ia.Index {
+										if _, f, _, okf := FieldOf(ta.X); okf && f == "chan2readoutOrder" {
+											okSt = true
+										}
+									}
+								}
+							}
+						}
+						good = good && okSt
+					}
+				}
+				return n > 0 && good
+			}
+			viewed := map[ssa.Value]bool{}
 			// the channel whose table entry selects the buffer handed over
 			chanOf := func(arg ssa.Value) ssa.Value {
 				var B ssa.Value
@@ -197,6 +233,9 @@ func c04R2R3(p *Prog, r *Report) {
 				case *ssa.IndexAddr:
 					if isBuffers(x.X) {
 						B = x.Index
+					} else if chanView(x.X) {
+						viewed[arg] = true
+						return x.Index
 					}
 				case *ssa.Alloc:
 					for _, ref := range *x.Referrers() {
@@ -204,6 +243,9 @@ func c04R2R3(p *Prog, r *Report) {
 							if ld, ok := st.Val.(*ssa.UnOp); ok && ld.Op == token.MUL {
 								if ia, ok := ld.X.(*ssa.IndexAddr); ok && isBuffers(ia.X) {
 									B = ia.Index
+								} else if ok && chanView(ia.X) {
+									viewed[arg] = true
+									return ia.Index
 								}
 							}
 						}
@@ -227,7 +269,7 @@ func c04R2R3(p *Prog, r *Report) {
 				return
 			}
 			viaTable := func(arg ssa.Value) bool {
-				return dependsOnField(arg, "chan2readoutOrder") || argThroughTable(arg, isBuffers)
+				return viewed[arg] || dependsOnField(arg, "chan2readoutOrder") || argThroughTable(arg, isBuffers)
 			}
 			kP := hpc.Of(K)
 			okFb := hpc.Of(fbCh).Equal(kP) && viaTable(cc.Args[1])
